@@ -7,13 +7,65 @@
 package main
 
 import (
+	"encoding/json"
+	"fmt"
+	"os"
+
 	"verifharness/vlib"
 )
 
+// replay re-executes the scenario stored in a replay file (--replay <path>).
+func replay(c *vlib.Check, path string, b []byte, err error) {
+	var f struct {
+		Witness struct {
+			Part     string          `json:"part"`
+			Scenario json.RawMessage `json:"scenario"`
+		} `json:"witness"`
+	}
+	if err == nil {
+		err = json.Unmarshal(b, &f)
+	}
+	if err != nil {
+		c.Inconclusive(fmt.Sprintf("cannot read replay %s: %v", path, err))
+		return
+	}
+	switch f.Witness.Part {
+	case "pmc":
+		var s pmcScenario
+		if json.Unmarshal(f.Witness.Scenario, &s) == nil {
+			runPMCScenario(c, s)
+		}
+	case "driver":
+		var s drvScenario
+		if json.Unmarshal(f.Witness.Scenario, &s) == nil {
+			runDrvScenario(c, s)
+		}
+	default:
+		c.Inconclusive("replay file has no pmc/driver scenario")
+	}
+}
+
 func main() {
+	// the replay file is read before vlib.Start, which removes the replays of
+	// an earlier run with the same (tier, seed)
+	var replayPath string
+	var replayData []byte
+	var replayErr error
+	for i, a := range os.Args {
+		if a == "--replay" && i+1 < len(os.Args) {
+			replayPath = os.Args[i+1]
+			replayData, replayErr = os.ReadFile(replayPath)
+		}
+	}
 	c := vlib.Start("C19")
-	nP := c.N(260, 12000)
-	nD := c.N(300, 12000)
+	{
+		if replayPath != "" {
+			replay(c, replayPath, replayData, replayErr)
+			c.Finish(vlib.FinishOpts{Rule: "replay of one recorded scenario (held = the scenario no longer violates; reported as inconclusive because nothing else was explored)"})
+		}
+	}
+	nP := c.N(1200, 12000)
+	nD := c.N(1500, 12000)
 
 	// the canonical battery runs first and sequentially, so that the witness
 	// kept for a key is the canonical reproducer whenever it reproduces
